@@ -16,9 +16,10 @@ Record mon := mkMon {
   m_supplied : list (N * resp);                (* (digest, response) handed in by workers *)
   m_learners : list (N * learner);             (* learners that are owed a terminal call *)
   m_live : list nat;                           (* calls that have not returned *)
-  m_lastsync : list (wref * Z) }.              (* when each worker's latest Synchronize call returned *)
-#[export] Instance eta_mon : Settable _ := settable! mkMon <m_streams; m_syncs; m_supplied; m_learners; m_live; m_lastsync>.
-Definition mon0 : mon := mkMon [] [] [] [] [] [].
+  m_lastsync : list (wref * Z);                (* when each worker's latest Synchronize call returned *)
+  m_reissue : list (wref * (list nat * nat)) }. (* per worker: the task it was last told to run, and how often it was re-told *)
+#[export] Instance eta_mon : Settable _ := settable! mkMon <m_streams; m_syncs; m_supplied; m_learners; m_live; m_lastsync; m_reissue>.
+Definition mon0 : mon := mkMon [] [] [] [] [] [] [].
 
 (* ---- helpers on dumps -------------------------------------------------------------- *)
 Definition all_scqs (d : dump) : list (pkey * d_scq) :=
@@ -367,7 +368,11 @@ Definition c02_obs (post : dump) (acc : mon * string) (o : obs) : mon * string :
                               else "C02:done-differs-from-recorded-response"
                   | None => ""   (* operation already collected *)
                   end
-                | None => if (stage =? 4)%N then "C02:completed-without-done" else ""
+                | None => if (stage =? 4)%N then "C02:completed-without-done"
+                          else match find_dop post name with
+                               | Some _ => ""
+                               | None => "C02:progress-message-for-unregistered-operation"
+                               end
                 end in
       let m' := upd_stream c (fun s => s <| sm_stage := stage |> <| sm_done := match done with Some _ => true | None => false end |>) m in
       (m', if String.eqb err "" then first_nonempty [e1; e2] else err)
@@ -506,9 +511,37 @@ Definition p_step (cfg : config) (t0 : Z) (m : mon) (pre : dump) (e : event) (o 
                    | OPanic what => if String.eqb what "hang" then "C06:calls-blocked-forever" else "C01:scheduler-panicked"
                    | _ => ""
                    end) o) in
+  (* C06: a task a worker keeps re-requesting is failed after the configured number of retries:
+     count, per worker, how often it is told again to run the task it was already told to run *)
+  let '(m, e_retry) :=
+    fold_left (fun (acc : mon * string) x =>
+      let '(m, err) := acc in
+      match x with
+      | OSync c (DExec _ _ _ _ _) _ =>
+        match find (fun '(c', _) => Nat.eqb c c') syncs_before with
+        | Some (_, w) =>
+          match find_dworker post (w_sk w) (wid w) with
+          | Some k =>
+            match dw_task k with
+            | Some ops =>
+              let prev := aget wref_eqb w (m_reissue m) in
+              let n := match prev with
+                       | Some (ops0, n0) => if same_set Nat.eqb ops0 ops then S n0 else O
+                       | None => O
+                       end in
+              (m <| m_reissue := aset wref_eqb w (ops, n) (m_reissue m) |>,
+               if String.eqb err "" && Nat.ltb (cf_retry_count cfg) n then "C06:task-reissued-beyond-retry-limit" else err)
+            | None => acc
+            end
+          | None => acc
+          end
+        | None => acc
+        end
+      | _ => acc
+      end) o (m, ""%string) in
   let e_exec := match e with
                 | EStartExecute c a _ => first_nonempty [c07_exec o; c03_exec pre post a; c05_exec cfg t0 pre post c a o]
                 | _ => ""
                 end in
   (m, first_nonempty [e_panic; c01_dump post; e_sync; e_stream; e_lost; e_cancel; c03_dump post; c03_waited post; c04_dump post; e_exec; c05_assign pre post;
-                      c06_dump m post; c06_final m post; e_arm; e_learn; c07_background post; c07_learners_match m post]).
+                      c06_dump m post; c06_final m post; e_arm; e_retry; e_learn; c07_background post; c07_learners_match m post]).
